@@ -26,6 +26,25 @@ P["C09"] = dict(
     ref="DESIGN.md section 3, C09",
 )
 
+P["C06"] = dict(
+    text="Structure of the copy-on-write / zero-frame protection decided on all paths: guard cut in Map and MapTemporary, classification of every "
+         "page-table-entry writer in the kernel (no mapping path bypasses the guard), arming discipline of the guard flag, divergence of the panic "
+         "handlers, the single recovered return dominated by present && !RW && CoW && no failure, and the order and operands of the recovery "
+         "sequence. Necessary conditions of C06; page contents and 'other pages untouched' are not decided.",
+    technique="SSA dominance cuts + diverging-function inference + writers-of classification + must-pass-through ordering",
+    ref="DESIGN.md section 3, C06",
+)
+
+P["C14"] = dict(
+    text="Checksum gating of ACPI table registration decided on all paths: every tableMap insert is dominated by the nil side of the error of the "
+         "mapACPITable call that produced it, every possibly-nil error return of mapACPITable crosses validTable(header, header.Length)==true "
+         "(per phi edge), bad tables log and continue, root pointer returns cross a checksum over exactly the structure's bytes on the right "
+         "revision side, entry width/shift/step agree per arm, mapping order and DSDT pointer selection. Found and fixed F8 (40-byte checksum "
+         "of the 36-byte RSDP). Scan completeness over all positions and table contents are not decided.",
+    technique="SSA dominance/cut queries with per-phi-edge nil analysis + constant folding of struct sizes",
+    ref="DESIGN.md section 3, C14",
+)
+
 ALL = ["C%02d" % i for i in range(1, 21)]
 
 def main():
